@@ -19,8 +19,8 @@
 (*                                                                         *)
 (* Where the property text is silent and the library has a definite        *)
 (* behaviour, the behaviour is a NAMED clause below (HashSupport,          *)
-(* LogListAlgorithms, StrictDER, CreateKeys, Unencodable, EntryFromChain); *)
-(* nothing else is assumed.                                                *)
+(* LogListAlgorithms, StrictDER, CreateKeys, Unencodable, EntryFromChain,  *)
+(* ExactBytes, ListIsJSON); nothing else is assumed.                       *)
 (***************************************************************************)
 EXTENDS Integers, FiniteSets
 
@@ -83,6 +83,39 @@ UnserFields(k) ==
 \* the bytes)
 Serializes(k) == k \in {"SCTx509", "SCTprecert", "STH"}
 
+(* ---------- the bytes of an object that is signed as it is ---------- *)
+\* clause ExactBytes.  A signed log list and a DigitallySigned blob reach the verifier as BYTES (loglist3.
+\* NewFromSignedJSON, tls.VerifySignature, SignatureVerifier.VerifySignature): "the canonical signed bytes" are the
+\* bytes the signer signed, octet for octet.  Byte strings that a reader of the document would call "the same" are
+\* other bytes: the signature does not cover them, and a signature made over them does not cover the document without
+\* them.  The FORM of the data is therefore a dimension of the case space, next to its value (the `data` field,
+\* 0 / 1): one document D, written as
+\*   plain        D itself
+\*   bom-prefix   a UTF-8 byte order mark in front of D
+\*   ws-prefix    white space (space, tab, LF, CRLF) in front of D
+\*   ws-suffix    white space / a final newline behind D
+\*   nul-suffix   NUL padding behind D
+\*   crlf         every LF of D written CRLF
+\*   case         letter case changed where a tolerant reader does not look at it (log list: the member names,
+\*                which Go's JSON decoder matches case-insensitively; blob: ASCII letters)
+\*   compact / reordered / escaped   (log list only) the same JSON value serialised again: insignificant white
+\*                space removed; object members in another order; a character of a string written as \uXXXX
+\* An object is SIGNED in form c.dform and PRESENTED in form PForm(c) (mutation "norm": the same document in
+\* another form, the signature value untouched).  Valid demands the two forms to be equal: every normalisation
+\* before verification (Strip(x): form x is read as plain; Add(x): plain is read as form x) is a false accept of
+\* bytes that were not signed AND a false reject of bytes that were (NormVerdict, NormExposed below).
+AffixForms == {"bom-prefix", "ws-prefix", "ws-suffix", "nul-suffix"}
+JSONReserialisations == {"compact", "reordered", "escaped"}
+RawBytes(k) == k \in {"LogList", "Blob"}
+DataForms(k) == CASE k = "LogList" -> {"plain", "crlf", "case"} \cup AffixForms \cup JSONReserialisations
+                  [] k = "Blob"    -> {"plain", "crlf", "case"} \cup AffixForms
+                  [] OTHER         -> {"plain"}
+\* clause ListIsJSON.  loglist3.NewFromSignedJSON verifies and then reads the bytes as a JSON log list (RFC 8259:
+\* a JSON text may be surrounded by white space; a byte order mark or NUL is not white space).  It returns a list iff
+\* the signature is valid over exactly the bytes AND they are a JSON text; when the signature IS valid and the
+\* bytes are not JSON, the refusal is a parse failure, not a statement that the signature does not verify.
+JSONForm(f) == f \notin {"bom-prefix", "nul-suffix"}
+
 (* ---------- how a precertificate entry reaches the verifier ---------- *)
 \* clause EntryFromChain: ctutil.VerifySCT is handed a certificate chain, not a signed_entry.  For a precertificate
 \* the signed TBSCertificate is (RFC 6962 3.2) the precertificate's with exactly the poison extension taken out
@@ -133,8 +166,10 @@ DERForms == {"negative-r", "negative-s", "zero-r", "zero-s", "r-plus-order", "in
 RSAForms == {"leading-zero", "all-zero"}
 Forms(fam) == CommonForms \cup (IF DERValue(fam) THEN DERForms ELSE IF fam = "rsa" THEN RSAForms ELSE {})
 ValueMuts(kt) == {Mut("value", 0, f) : f \in Forms(Fam(kt))}
-Muts(k, kt, h) ==
-  {NoMut} \cup FieldMuts(k) \cup UnserMuts(k) \cup KeyMuts(kt) \cup ValueMuts(kt)
+\* the same document in another form than the one it was signed in (ExactBytes)
+NormMuts(k, d) == {Mut("norm", 0, f) : f \in DataForms(k) \ {d}}
+Muts(k, kt, h, d) ==
+  {NoMut} \cup FieldMuts(k) \cup UnserMuts(k) \cup KeyMuts(kt) \cup ValueMuts(kt) \cup NormMuts(k, d)
   \cup (IF ImpliedAlg(k) THEN {} ELSE HashMuts(h) \cup SigMuts(DeclaredSig(kt)))
 \* The shape of the chain is independent of the algorithm dimensions: the one-call table crosses the non-standard
 \* shapes with everything that touches the signed bytes (no mutation, every signed field changed or made
@@ -142,30 +177,46 @@ Muts(k, kt, h) ==
 \* (SigVerifyHist) take any mutation under any shape.
 ShapeHashes == {4}
 ShapeMuts(k, kt) == {NoMut} \cup FieldMuts(k) \cup UnserMuts(k) \cup {Mut("key-same-type", 0, kt), Mut("value", 0, "glued")}
+\* The form of the data is independent of the algorithm dimensions as well: the one-call table crosses every form
+\* the object can be SIGNED in with every form it can be PRESENTED in (and no other mutation) under the hash a log
+\* list implies; objects signed in the plain form take every mutation, "norm" included, under every hash.
+FormHashes == {4}
 
 (* ---------- cases ---------- *)
 \* a verification case: an object of kind `kind`, validly signed by key <<key, 1>> with hash `hash`,
 \* presented after mutation `mut`; `allow` = the caller opted in to non-compliant keys.
 Allows(k) == IF ViaVerifier(k) THEN BOOLEAN ELSE {FALSE}
 VerifyCases ==
-  UNION { UNION { UNION { { [kind |-> k, key |-> kt, hash |-> h, mut |-> mu, allow |-> a, shape |-> StdShape] :
-                            mu \in Muts(k, kt, h), a \in Allows(k) }
+  UNION { UNION { UNION { { [kind |-> k, key |-> kt, hash |-> h, mut |-> mu, allow |-> a, shape |-> StdShape, dform |-> "plain"] :
+                            mu \in Muts(k, kt, h, "plain"), a \in Allows(k) }
                           : h \in ObjHashes(k) } : kt \in KeyTypes } : k \in Kinds }
 ShapeCases ==
-  UNION { UNION { { [kind |-> k, key |-> kt, hash |-> h, mut |-> mu, allow |-> a, shape |-> sh] :
+  UNION { UNION { { [kind |-> k, key |-> kt, hash |-> h, mut |-> mu, allow |-> a, shape |-> sh, dform |-> "plain"] :
                       mu \in ShapeMuts(k, kt), a \in Allows(k), sh \in Shapes(k) \ {StdShape},
                       h \in ShapeHashes \cap ObjHashes(k) }
                   : kt \in KeyTypes } : k \in Kinds }
+\* signed in form d (not the plain one), presented as signed or in any other form
+FormCases ==
+  UNION { UNION { UNION { { [kind |-> k, key |-> kt, hash |-> h, mut |-> mu, allow |-> a, shape |-> StdShape, dform |-> d] :
+                              mu \in {NoMut} \cup NormMuts(k, d), a \in Allows(k), h \in FormHashes \cap ObjHashes(k) }
+                          : d \in DataForms(k) \ {"plain"} } : kt \in KeyTypes } : k \in Kinds }
+\* the part of the table that spans the form dimension: signed in any form (the plain one: these are VerifyCases),
+\* presented as signed or in any other form, nothing else changed
+PlainFormCases ==
+  UNION { UNION { { [kind |-> k, key |-> kt, hash |-> h, mut |-> mu, allow |-> FALSE, shape |-> StdShape, dform |-> "plain"] :
+                      mu \in {NoMut} \cup NormMuts(k, "plain"), h \in FormHashes \cap ObjHashes(k) }
+                  : kt \in KeyTypes } : k \in {x \in Kinds : RawBytes(x)} }
+FormTable == FormCases \cup PlainFormCases
 \* constructor table and signature creation table, in the same record shape
-CtorCases == { [kind |-> "Ctor", key |-> kt, hash |-> 0, mut |-> NoMut, allow |-> a, shape |-> StdShape] : kt \in CtorKeyTypes, a \in BOOLEAN }
-CreateCases == { [kind |-> "Create", key |-> kt, hash |-> h, mut |-> NoMut, allow |-> FALSE, shape |-> StdShape] :
+CtorCases == { [kind |-> "Ctor", key |-> kt, hash |-> 0, mut |-> NoMut, allow |-> a, shape |-> StdShape, dform |-> "plain"] : kt \in CtorKeyTypes, a \in BOOLEAN }
+CreateCases == { [kind |-> "Create", key |-> kt, hash |-> h, mut |-> NoMut, allow |-> FALSE, shape |-> StdShape, dform |-> "plain"] :
                  kt \in KeyTypes, h \in HashMutCodes }
-Cases == VerifyCases \cup ShapeCases \cup CtorCases \cup CreateCases
+Cases == VerifyCases \cup ShapeCases \cup FormCases \cup CtorCases \cup CreateCases
 
 (* ---------- what is presented to the verifier ---------- *)
 Key(t, i) == [type |-> t, id |-> i]
 Token(c) == [signer |-> Key(c.key, 1), hashUsed |-> c.hash, scheme |-> SchemeCode(Fam(c.key)),
-             msg |-> AsSigned(c.kind), form |-> "intact"]
+             msg |-> AsSigned(c.kind), dform |-> c.dform, form |-> "intact"]
 PKeyType(c) == IF c.mut.m = "key-other-type" THEN c.mut.t ELSE c.key
 PKey(c) == CASE c.mut.m = "key-same-type"  -> Key(c.key, 2)
              [] c.mut.m = "key-other-type" -> Key(c.mut.t, 1)
@@ -176,10 +227,12 @@ PSig(c) == IF ImpliedAlg(c.kind) THEN SchemeCode(Fam(PKeyType(c)))
 PMsg(c) == CASE c.mut.m = "field" -> [AsSigned(c.kind) EXCEPT ![c.mut.t] = 1]
              [] c.mut.m = "unser" -> [AsSigned(c.kind) EXCEPT ![c.mut.t] = 2]      \* Unencodable
              [] OTHER -> AsSigned(c.kind)
+\* the form the data is presented in (ExactBytes)
+PForm(c) == IF c.mut.m = "norm" THEN c.mut.t ELSE c.dform
 \* canonical signed bytes exist for the presented fields
 Encodable(msg) == \A f \in DOMAIN msg : msg[f] # 2
 PVal(c) == IF c.mut.m = "value" THEN [Token(c) EXCEPT !.form = c.mut.t] ELSE Token(c)
-Presented(c) == [key |-> PKey(c), hash |-> PHash(c), sig |-> PSig(c), msg |-> PMsg(c), val |-> PVal(c), kind |-> c.kind]
+Presented(c) == [key |-> PKey(c), hash |-> PHash(c), sig |-> PSig(c), msg |-> PMsg(c), dform |-> PForm(c), val |-> PVal(c), kind |-> c.kind]
 
 (* ---------- the property ---------- *)
 \* the bytes are a complete, well-formed signature value of the scheme (trailing bytes are ignored
@@ -194,10 +247,14 @@ Valid(p) ==
   /\ p.sig = p.val.scheme                         \* ... and it is the scheme that made the value
   /\ p.key = p.val.signer                         \* for the given key
   /\ Encodable(p.msg)                             \* there are canonical signed bytes (Unencodable)
-  /\ p.msg = p.val.msg                            \* ... exactly those the value was made over
+  /\ p.msg = p.val.msg                            \* ... exactly those the value was made over:
+  /\ p.dform = p.val.dform                        \*     the same document, written the same way (ExactBytes)
   /\ FormOK(p.val.form, p.val.scheme)
   /\ (ImpliedAlg(p.kind) => Fam(p.key.type) \in LogListKeyFams)    \* LogListAlgorithms
 Expected(c) == IF Valid(Presented(c)) THEN "ok" ELSE "error"
+\* clause ListIsJSON: what loglist3.NewFromSignedJSON returns, and which of its two steps refuses
+ListVerdict(c) == IF Expected(c) = "ok" /\ JSONForm(PForm(c)) THEN "ok" ELSE "error"
+ListStage(c) == IF Expected(c) = "error" THEN "verify" ELSE IF JSONForm(PForm(c)) THEN "none" ELSE "parse"
 
 \* "A verifier cannot be constructed for RSA keys below 2048 bits or ECDSA keys off P-256 unless the
 \*  caller explicitly opted in to non-compliant keys, and never for key types RFC 6962 does not define."
@@ -218,6 +275,7 @@ Outcome(c) == CASE c.kind = "Ctor"   -> IF Constructible(c.key, c.allow) THEN "o
 (* ---------- laws of the decision table (checked by TLC on every case) ---------- *)
 IsVerify(c) == c.kind \in Kinds
 Signable(c) == SchemeCode(Fam(c.key)) # -1 /\ (ImpliedAlg(c.kind) => Fam(c.key) \in LogListKeyFams)
+\* (no mutation: the object as it was signed, in whatever form that was)
 Harmless(c) == c.mut = NoMut \/ (c.mut = Mut("value", 0, "trailing") /\ DERValue(Fam(c.key)))
 
 \* verdicts are "ok" or "error"; no input maps to a panic or to a third outcome
@@ -234,6 +292,25 @@ UnserIsError(c) == IsVerify(c) /\ c.mut.m = "unser" => ~Encodable(PMsg(c)) /\ Ex
 ShapeIrrelevant(c) == IsVerify(c) => /\ c.shape \in Shapes(c.kind)
                                      /\ Expected(c) = Expected([c EXCEPT !.shape = StdShape])
                                      /\ EndToEnd(c) = EndToEnd([c EXCEPT !.shape = StdShape])
+\* ExactBytes: the same document in another form than the signed one does not verify - whichever of the two forms is
+\* the plain one -; in the form it was signed in it does (that is HarmlessIsOk: no mutation, any dform)
+ExactBytes(c) == IsVerify(c) => /\ c.dform \in DataForms(c.kind) /\ PForm(c) \in DataForms(c.kind)
+                                /\ (PForm(c) # c.dform => Expected(c) = "error")
+                                /\ (c.mut.m = "norm" => PForm(c) # c.dform /\ RawBytes(c.kind))
+\* ListIsJSON: the list is returned only when the signature verifies, and then iff the bytes are a JSON text
+ListLaw(c) == c.kind = "LogList" => /\ (ListVerdict(c) = "ok" => Expected(c) = "ok")
+                                    /\ (Expected(c) = "ok" => (ListVerdict(c) = "ok" <=> JSONForm(PForm(c))))
+                                    /\ (ListStage(c) = "none" <=> ListVerdict(c) = "ok")
+\* A verifier that NORMALISES what it is handed before it verifies, as a non-function of the bytes to be told from
+\* Valid: Strip(x) reads form x as the plain form, Add(x) reads the plain form as form x; everything else as it is.
+Normalised(n, f) == IF n.op = "strip" THEN (IF f = n.x THEN "plain" ELSE f) ELSE (IF f = "plain" THEN n.x ELSE f)
+Normalisers(k) == {[op |-> o, x |-> x] : o \in {"strip", "add"}, x \in DataForms(k) \ {"plain"}}
+NormVerdict(n, c) == IF Valid([Presented(c) EXCEPT !.dform = Normalised(n, PForm(c))]) THEN "ok" ELSE "error"
+\* the table tells every such verifier from Valid, in both directions (a false accept and a false reject)
+NormExposed(k, cases) ==
+  \A n \in Normalisers(k) :
+     /\ \E c \in cases : c.kind = k /\ Expected(c) = "error" /\ NormVerdict(n, c) = "ok"
+     /\ \E c \in cases : c.kind = k /\ Expected(c) = "ok" /\ NormVerdict(n, c) = "error"
 \* the key policy: opting in only ever adds keys; without it exactly the compliant keys; never other families
 PolicyLaw(kt) == /\ (Constructible(kt, FALSE) => Constructible(kt, TRUE))
                  /\ (Constructible(kt, FALSE) <=> Compliant(kt))
@@ -242,5 +319,5 @@ PolicyLaw(kt) == /\ (Constructible(kt, FALSE) => Constructible(kt, TRUE))
 \* nothing verifies end to end that does not verify, or whose verifier cannot be built
 EndToEndLaw(c) == IsVerify(c) /\ EndToEnd(c) = "ok" => Expected(c) = "ok" /\ Constructible(PKeyType(c), c.allow)
 Law(c) == /\ NoThirdOutcome(c) /\ OkOnlyIfHarmless(c) /\ HarmlessIsOk(c) /\ MismatchIsError(c) /\ EndToEndLaw(c)
-          /\ UnserIsError(c) /\ ShapeIrrelevant(c) /\ PolicyLaw(c.key)
+          /\ UnserIsError(c) /\ ShapeIrrelevant(c) /\ PolicyLaw(c.key) /\ ExactBytes(c) /\ ListLaw(c)
 =============================================================================
